@@ -13,7 +13,7 @@ LEVELS = {
           'base C14_inv_init): the sum over holders of (global_index - index)*balance + pending never exceeds prev_reward_balance*1e18; '
           'a claim worth >= 1 unit always succeeds and pays exactly the whole units, keeping the fraction (C14_claim_pays); an index update '
           'records exactly the bank balance and strands < total_balance atomics (C14_update_records_bank, C14_update_dust). '
-          'Tied to the Rust by differential histories (index updates, mints, burns, transfers, claims, zero-holder updates) and by the solvency oracle on every implementation step.',
+          'Tied to the Rust by differential histories (index updates, mints, burns, transfers, claims, zero-holder updates) and by the solvency oracle on every implementation step. C14_reachable: the reward contract\'s invariant (sum of dues <= recorded balance, recorded total = sum of mirrored balances) holds in every reachable state of the composed system. C14_funded: in every state reached by any history of outside, non-owner transactions the recorded balance is covered by the contract\'s bank balance in the reward denom (queue invariant "recorded + reward coins about to leave <= bank", using that only a message sent by an account can lower its bank balance - handle_bank_ge - and that no contract ever emits SwapToRewardDenom - handle_noSwap). C14_claim_tx_succeeds: in such a state a holder owed at least one unit claims successfully as a whole transaction (handler accepts, the transfer goes through, exactly floor(owed) arrives).',
   'note': 'Trusted: Lean kernel; model of basset_sei_reward; that the bank credits the contract (A-CHAIN-2); prev <= bank balance is carried by the harness oracle across '
           'contracts (the theorem covers the contract side: recorded balance := bank balance on update, lowered by exactly the payout on claim).',
   'technique': 'Lean 4 invariant proof by case analysis over all reward-contract messages; differential correspondence + solvency oracle',
